@@ -1871,6 +1871,9 @@ func (ts *Service) updateAllAssociatedTasks(old, new Template, taskIds []string)
 		return fmt.Errorf("failed to parse new tickscript: %v", err)
 	}
 
+	// DBRPs of every task before it is updated, for the rollback.
+	originalDBRPs := make(map[string][]DBRP, len(taskIds))
+
 	// Setup rollback function
 	defer func() {
 		if i == len(taskIds) {
@@ -1897,7 +1900,11 @@ func (ts *Service) updateAllAssociatedTasks(old, new Template, taskIds []string)
 			task.TemplateID = old.ID
 			task.TICKscript = old.TICKscript
 			task.Type = old.Type
-			if len(dbrpsFromProgram(oldPn)) > 0 {
+			if dbrps, ok := originalDBRPs[taskId]; ok {
+				// The dbrps the task had before this update: a task with its own (not declared)
+				// dbrps must not keep the declaration of the rejected script.
+				task.DBRPs = dbrps
+			} else if len(dbrpsFromProgram(oldPn)) > 0 {
 				task.DBRPs = []DBRP{}
 				for _, dbrp := range dbrpsFromProgram(oldPn) {
 					task.DBRPs = append(task.DBRPs, DBRP{
@@ -1942,6 +1949,7 @@ func (ts *Service) updateAllAssociatedTasks(old, new Template, taskIds []string)
 			}
 		}
 
+		originalDBRPs[taskId] = task.DBRPs
 		task.TemplateID = new.ID
 		task.TICKscript = new.TICKscript
 		task.Type = new.Type
